@@ -11,6 +11,12 @@
      cell K J L                    -> cell number or "-"       (sexp_env_cell env K, identifier J, localp L)
      ideq K1 J1 K2 J2              -> 0 / 1                    (sexp_identifier_eq_op)
      name J                        -> symbol number of the stripped identifier
+     form J N x1 .. xN             identifier slot J := the combination (x1 .. xN) of other slots
+     xenv K2 K CE                  environment K2 := extend_synclo_env (current fv list) (env CE) (env K), a snapshot
+     ana CE J                      -> the analysed form J in environment CE: ( .. ) application, cell number, "-" unbound
+                                      (the model's resolve = analyze; closures around combinations enter_fv / enter_env)
+     strip BOUND <datum>           -> strip_synclos BOUND datum; datum in prefix notation
+                                      S<n> | L<n> | N | P a d | V<k> e1..ek | C e   (closures printed without identity)
    Environments are materialised at query time from the tables (the generator never makes a frame
    contain, as a key, a closure over that frame or a descendant, so this terminates).
 
@@ -32,11 +38,13 @@ let n_of_int i = n_of_hex (Printf.sprintf "%x" i)
 let int_of_n n = int_of_string ("0x" ^ hex_of_n n)
 
 type idef = ISym of int | IClo of int * int list * int   (* env, fv slots, expr slot *)
+          | IForm of int list
 let idents : (int, idef) Hashtbl.t = Hashtbl.create 64
 let envs : (int, int) Hashtbl.t = Hashtbl.create 64                  (* parent *)
 let binds : (int, (int * int) list) Hashtbl.t = Hashtbl.create 64    (* newest first *)
 let rens : (int, (int * int) list) Hashtbl.t = Hashtbl.create 64
 let ctxfv : string list ref = ref []
+let xenvs : (int, frame list) Hashtbl.t = Hashtbl.create 16       (* environments made by xenv (frozen values) *)
 
 let mkc c = { cid = n_of_int c; cval = VOther }
 
@@ -44,8 +52,10 @@ let rec mk_ident j : sexp =
   match Hashtbl.find idents j with
   | ISym s -> Sym (n_of_int s)
   | IClo (k, fv, x) -> Clo (n_of_int j, mk_env k, List.map mk_ident fv, mk_ident x)
+  | IForm l -> Lst (List.map mk_ident l)
 and mk_env k : frame list =
   if k < 0 then [] else
+  if Hashtbl.mem xenvs k then Hashtbl.find xenvs k else
     let al tbl = List.map (fun (j, c) -> (mk_ident j, mkc c)) (try Hashtbl.find tbl k with Not_found -> []) in
     Frame (al rens, al binds) :: mk_env (Hashtbl.find envs k)
 
@@ -115,6 +125,41 @@ let do_analyze fuel form =
   | Err (BadSyntax n) -> "ERR syntax " ^ string_of_int (int_of_n n)
   | Err Escaped -> "ERR escaped"
 
+(* ---- quoted data ---- *)
+let rec parse_datum toks : datum * string list =
+  match toks with
+  | [] -> failwith "eof"
+  | t :: r ->
+    let num () = int_of_string (String.sub t 1 (String.length t - 1)) in
+    (match t.[0] with
+     | 'S' -> (DSym (n_of_int (num ())), r)
+     | 'L' -> (DLit (n_of_int (num ())), r)
+     | 'N' -> (DNil, r)
+     | 'P' -> let (a, r1) = parse_datum r in let (d, r2) = parse_datum r1 in (DPair (a, d), r2)
+     | 'C' -> let (e, r1) = parse_datum r in (DClo (n_of_int 0, e), r1)
+     | 'V' ->
+       let k = num () in
+       let rec go i r acc = if i = 0 then (List.rev acc, r) else let (x, r') = parse_datum r in go (i - 1) r' (x :: acc) in
+       let (l, r') = go k r [] in (DVec l, r')
+     | _ -> failwith "bad datum token")
+
+let show_datum d =
+  let b = Buffer.create 256 in
+  let rec go = function
+    | DSym s -> Buffer.add_string b ("S" ^ string_of_int (int_of_n s))
+    | DLit n -> Buffer.add_string b ("L" ^ string_of_int (int_of_n n))
+    | DNil -> Buffer.add_string b "N"
+    | DPair (a, d) -> Buffer.add_string b "P "; go a; Buffer.add_char b ' '; go d
+    | DVec l -> Buffer.add_string b ("V" ^ string_of_int (List.length l)); List.iter (fun x -> Buffer.add_char b ' '; go x) l
+    | DClo (_, e) -> Buffer.add_string b "C "; go e in
+  go d; Buffer.contents b
+
+let rec show_ana = function
+  | RRef c -> string_of_int (int_of_n c)
+  | RUnbound _ -> "-"
+  | RApp l -> "(" ^ String.concat " " (List.map show_ana l) ^ ")"
+  | _ -> "?"
+
 (* ---- renamer part ---- *)
 let rn_ids : (int, sexp) Hashtbl.t = Hashtbl.create 64
 let rn_rens : (int, int * (sexp * sexp) list) Hashtbl.t = Hashtbl.create 16
@@ -145,7 +190,7 @@ let handle fields =
   let i = int_of_string in
   match fields with
   | ["reset"] ->
-      Hashtbl.reset idents; Hashtbl.reset envs; Hashtbl.reset binds; Hashtbl.reset rens; ctxfv := [];
+      Hashtbl.reset idents; Hashtbl.reset envs; Hashtbl.reset binds; Hashtbl.reset rens; ctxfv := []; Hashtbl.reset xenvs;
       globals := []; macros := []; next_gcell := 1; "ok"
   | ["sym"; j; s] -> Hashtbl.replace idents (i j) (ISym (i s)); "ok"
   | ["env"; k; p] -> Hashtbl.replace envs (i k) (i p); "ok"
@@ -157,6 +202,16 @@ let handle fields =
       let x = List.nth rest n in
       Hashtbl.replace idents (i j) (IClo (i k, List.map i fv, i x)); "ok"
   | "fv" :: _ :: items -> ctxfv := items; "ok"
+  | "form" :: j :: _ :: xs -> Hashtbl.replace idents (i j) (IForm (List.map i xs)); "ok"
+  | ["xenv"; k2; k; ce] ->
+      let v = extend_synclo_env (mk_fv ()) (mk_env (i ce)) (mk_env (i k)) in
+      Hashtbl.replace xenvs (i k2) v; "ok"
+  | ["ana"; ce; j] ->
+      (match resolve [] [] (nat_of_int 200) ((n_of_int 100000, n_of_int 100000), []) (mk_fv ()) (mk_env (i ce)) (mk_ident (i j)) with
+       | OK (_, t) -> show_ana t
+       | Err _ -> "ERR")
+  | "strip" :: bound :: toks ->
+      let (d, _) = parse_datum toks in show_datum (strip_synclos (nat_of_int (i bound)) d)
   | ["cell"; k; j; l] ->
       (match env_cell (mk_fv ()) (mk_env (i k)) (mk_ident (i j)) (l = "1") with
        | None -> "-"
